@@ -246,7 +246,9 @@ func (x *refx) expand(t *vh.R) (res *vh.R, err string) {
 
 // refApplicable: the reference works on normalised trees, where { { a; b } } and { a; b } coincide; as a macro
 // argument they do not (the outer block is spread, the inner one stays), so such inputs are checked by
-// fast == classic and by the model only
+// fast == classic and by the model only.  The same holds for { { x := e } } and { x := e }: norm2 keeps the block of
+// a lone declaration, so both normalise to the same tree (first met by the thorough tier:
+// `{ m1; { { e := j } }; ... }` - gomacro returns `{ e := j }`, the reference spread the block and returned `e := j`).
 func refApplicable(t *vh.R) bool {
 	ok := true
 	t.Walk(func(x *vh.R) {
@@ -255,7 +257,7 @@ func refApplicable(t *vh.R) bool {
 			for isWrapper(k) {
 				k = k.Kids[0]
 			}
-			if k != nil && k.Slice && k.Tag == "SBlock" && len(k.Kids) != 1 {
+			if k != nil && k.Slice && k.Tag == "SBlock" && (len(k.Kids) != 1 || keepsBlock(norm2(k.Kids[0]))) {
 				ok = false
 			}
 		}
